@@ -39,7 +39,9 @@ META = {
         "md_env[temp_root_node]'. The facts are read as a propositional formula over the atoms isinstance(current_node, C) (with the docutils class hierarchy "
         "read from the parsed sibling source), current_node ==/is temp root, 'a temp root is set'; single-assignment locals (also as operands of the comparisons, e.g. the temp root fetched into a local) and "
         "boolean predicate helpers (`return <test>`) are expanded; implications are decided by truth table. Conversely the rubric branch is reached only under 'neither document nor section'. "
-        "Nobody outside the heading code constructs nodes.section in the rendering modules or calls the level-state update. "
+        "Nobody outside the heading code constructs nodes.section in the rendering modules or calls the level-state update. The children of a scratch document that "
+        "an rST parser filled (eval-rst: they may be sections made by rST titles) are moved below current_node only under the same structural guard, or after a "
+        "conversion of the sections to rubrics that runs whenever the guard does not hold - on the current tree render_restructuredtext does neither (KNOWN finding). "
         "R2: from the rubric construction (in render_heading or a helper) to the exit there is no write to the level map, no level-state update and no direct "
         "current_node store, also not in the directly called renderer methods; current_node_context saves current_node before its yield and restores the saved "
         "name on every normal path after it (plain or try/finally); the rubric's level= and the level passed to the level-state update are the same signed sum "
@@ -69,7 +71,8 @@ META = {
         "the temp root during a render must be such a pair itself; a non-None temp_root_node is passed only as `<node> if <flag> else None` where <flag> is traced "
         "to the match_titles parameter of a docutils-state nested_parse and <node> is the argument of the enclosing current_node_context - any other caller "
         "passing a temp root is a violation; the level registered by the section path is exactly tag digit + "
-        "heading offset, the tag digit being int() of tag[1] / tag[1:] / tag.lstrip('h') / tag.removeprefix('h'); a level derived from token.markup is decided against "
+        "heading offset (R5: the section treated as top-level - MathJax ignore classes - is recognised by `not isinstance(section.parent, section)` / parent is the document, "
+        "evaluated after the level-state update attached it; a comparison of the heading level with a constant in that condition is a violation, repair 2e8a339), the tag digit being int() of tag[1] / tag[1:] / tag.lstrip('h') / tag.removeprefix('h'); a level derived from token.markup is decided against "
         "the parsed markdown-it sources (every heading_open producer must set markup to exactly <level> characters - the setext rule does not, so it is a violation) "
         "(thorough: markdown-it pushes heading_open with 'h'+str(level))."
     ),
@@ -453,7 +456,10 @@ class Guard:
                 continue
             e = self.opaque[a]
             for n in ast.walk(e):
-                if isinstance(n, ast.Call) or (isinstance(n, ast.Attribute) and n.attr in ("current_node", "md_env")):
+                if isinstance(n, ast.Attribute) and n.attr in ("current_node", "md_env"):
+                    return a[1]
+                # a call that could be a structural predicate: a method of the renderer, or a plain function (helper) call
+                if isinstance(n, ast.Call) and (isinstance(n.func, ast.Name) or (isinstance(n.func, ast.Attribute) and isinstance(n.func.value, ast.Name) and n.func.value.id == "self")):
                     return a[1]
             if isinstance(e, ast.Name):
                 return a[1]
@@ -670,6 +676,37 @@ def _heading_code(corpus: Corpus) -> HeadingCode:
 # R1
 
 
+def _scratch_document_transfers(fi: FunctionInfo) -> list[tuple[str, ast.AST]]:
+    """(local, attaching construct) where ``local`` is a fresh document (make_document / new_document) that is handed to a
+    ``.parse(text, local)`` call and whose children are then appended to ``self.current_node``."""
+    out = []
+    for d in fi.local_nodes():
+        if not (isinstance(d, ast.Assign) and len(d.targets) == 1 and isinstance(d.targets[0], ast.Name) and isinstance(d.value, ast.Call)):
+            continue
+        full = fi.module.resolve(dotted(d.value.func) or "")
+        if not (full.endswith(".make_document") or full.endswith(".new_document") or full in ("make_document", "new_document")):
+            continue
+        loc = d.targets[0].id
+        parsed = any(
+            isinstance(c, ast.Call) and isinstance(c.func, ast.Attribute) and c.func.attr in ("parse", "run") and any(isinstance(a_, ast.Name) and a_.id == loc for a_ in c.args)
+            for c in fi.local_nodes()
+        )
+        if not parsed:
+            continue
+
+        def is_children(e: ast.AST) -> bool:
+            return (isinstance(e, ast.Attribute) and e.attr == "children" and isinstance(e.value, ast.Name) and e.value.id == loc) or (isinstance(e, ast.Name) and e.id == loc) or (
+                isinstance(e, ast.Starred) and is_children(e.value)
+            ) or (isinstance(e, ast.Call) and dotted(e.func) in ("list", "tuple") and len(e.args) == 1 and is_children(e.args[0]))
+
+        for n in fi.local_nodes():
+            if isinstance(n, ast.Call) and isinstance(n.func, ast.Attribute) and n.func.attr in ("extend", "append", "insert") and is_attr(n.func.value, "current_node") and any(is_children(a_) for a_ in n.args):
+                out.append((loc, n))
+            if isinstance(n, ast.AugAssign) and isinstance(n.op, ast.Add) and is_attr(n.target, "current_node") and is_children(n.value):
+                out.append((loc, n))
+    return out
+
+
 @rule("C05.R1")
 def r1_context_guard(corpus: Corpus, rep: Report, tier: str):
     rep.rule("C05.R1", "section construction, level-state update and current_node stores of render_heading lie behind the structural guard; the rubric branch only outside document/section")
@@ -749,6 +786,45 @@ def r1_context_guard(corpus: Corpus, rep: Report, tier: str):
         "dominated by: current node is neither document nor section",
         lambda cex: f"the rubric branch can be taken at document level ({describe_env(cex) or 'unguarded'}): a heading directly under the document or a section becomes a rubric instead of a section",
     )
+    # rST titles: the children of a scratch document that an rST parser filled (they may be sections) are moved below
+    # current_node only where a section may live, or after the sections were turned into rubrics where it may not
+    for fi in _all_plain_functions(corpus):
+        if not _in_render_scope(fi):
+            continue
+        for loc, attach in _scratch_document_transfers(fi):
+            rep.saw_function(fi.fq)
+            cfg_f = get_cfg(fi)
+            gf = Guard(fi, corpus, shared=g)
+            k = f"{fi.fq}|sections of an rST scratch document attached below current_node without the structural guard"
+            st = cfg_f.stmt_of(attach)
+            prem = gf.conj(cfg_f.guards(st))
+            if g.implies(prem, STRUCT_OR_ROOT) is None:
+                rep.ok("C05.R1", k, fi.module.site(attach), "the transfer is dominated by: current node is document/section or the temp root")
+                continue
+            converted = False
+            for c in fi.local_nodes():
+                if isinstance(c, ast.Call) and any(isinstance(a_, ast.Name) and a_.id == loc for a_ in c.args) and c.lineno < attach.lineno:
+                    tgt = corpus.find_function(fi.module.resolve(dotted(c.func) or "")) if dotted(c.func) else None
+                    if tgt is None and isinstance(c.func, ast.Attribute) and isinstance(c.func.value, ast.Name) and c.func.value.id == "self":
+                        tgt = corpus.lookup_method(base.cls(RENDERER), c.func.attr)
+                    if tgt is not None and any(isinstance(n_, ast.Call) and resolves_to(n_, tgt, RUBRIC) for n_ in tgt.local_nodes()):
+                        pc = gf.conj(cfg_f.guards(cfg_f.stmt_of(c)))
+                        # the conversion runs whenever a section may not live here: not(guard of the conversion) => structural
+                        if g.implies(("not", pc), STRUCT_OR_ROOT) is None:
+                            converted = True
+            if converted:
+                rep.ok("C05.R1", k, fi.module.site(attach), "sections are converted to rubrics whenever the current node is not a document/section/temp root")
+            elif g.unknown_idiom(prem):
+                rep.error("C05.R1", f"{fi.module.site(attach)}: guard of the scratch-document transfer contains `{g.unknown_idiom(prem)}`, not readable as a structural test")
+            else:
+                rep.violation(
+                    "C05.R1",
+                    k,
+                    fi.module.site(attach),
+                    f"{fi.qualname} moves the children of the rST-parsed scratch document `{loc}` below current_node (`{short(attach, 60)}`) whatever that node is: an rST section title in an "
+                    "{eval-rst} block inside a block quote, list item or directive body opens a <section> below that container, while the Markdown heading at the same place becomes a rubric",
+                )
+
     # evidence only: the one deliberate exception to "a heading inside a container never opens a section"
     rep.listed(
         "C05.R1",
@@ -2706,7 +2782,88 @@ def _heading_tag_shape(corpus: Corpus, rep: Report) -> None:
         rep.error("C05.R4", f"expected the ATX and setext heading rules of markdown-it to push heading_open, found {len(sites)} site(s)")
 
 
-RULES = [r1_context_guard, r2_rubric_path_purity, r3_ordering_roles, r4_save_restore]
+# ---------------------------------------------------------------------------
+# R5 the top-level section is recognised by its position, not by a literal heading level
+
+TOP_LEVEL_CLASSES = ("tex2jax_ignore", "mathjax_ignore")
+
+
+@rule("C05.R5")
+def r5_top_level_section(corpus: Corpus, rep: Report, tier: str):
+    rep.rule("C05.R5", "the section treated as top-level (MathJax ignore classes) is recognised by being attached outside any section, after it was attached - not by a literal heading level")
+    base, rh, upd = _renderer_funcs(corpus)
+    hc = _heading_code(corpus)
+    marks = hc.find(
+        lambda f, n: isinstance(n, ast.Call)
+        and isinstance(n.func, ast.Attribute)
+        and n.func.attr in ("extend", "append", "add", "insert")
+        and any(isinstance(c, ast.Constant) and c.value in TOP_LEVEL_CLASSES for a_ in n.args for c in ast.walk(a_))
+    )
+    if not marks:
+        rep.listed("C05.R5", f"{rh.fq}|top-level section classes", rh.site(), "the heading code adds no MathJax ignore classes: nothing to judge")
+        return
+    uf, ucall = hc.update_call()
+    sec_arg = _update_args(ucall)[0]
+    for f, call in marks:
+        k = f"{f.fq}|top-level section recognised by its position in the tree"
+        site = f.module.site(call)
+        cfg = get_cfg(f)
+        st = cfg.stmt_of(call)
+        recv = call.func.value
+        sec = recv.value.id if isinstance(recv, ast.Subscript) and isinstance(recv.value, ast.Name) else None
+        if sec is None or not (isinstance(sec_arg, ast.Name) and sec_arg.id == sec and uf.fq == f.fq):
+            raise Unsupported("the node that receives the top-level classes is not the section handed to the level-state update in the same function")
+        facts_ = cfg.guards(st)
+        # (a) a literal heading level in the condition
+        literal = None
+        for t, _pol in facts_:
+            for cmp_ in [n for n in ast.walk(t) if isinstance(n, ast.Compare) and len(n.ops) == 1]:
+                for side, other in ((cmp_.left, cmp_.comparators[0]), (cmp_.comparators[0], cmp_.left)):
+                    if isinstance(other, ast.Constant) and isinstance(other.value, int) and not isinstance(other.value, bool):
+                        try:
+                            ts = hc.terms(side, f, st)
+                        except Unsupported:
+                            continue
+                        if any(t_ in ("TAG", "OFFSET") for _s, t_ in ts):
+                            literal = cmp_
+        # (b) a test of the section's position
+        pos_test = None
+        for t, pol in facts_:
+            if isinstance(t, ast.Call) and dotted(t.func) == "isinstance" and len(t.args) == 2 and isinstance(t.args[0], ast.Attribute) and t.args[0].attr == "parent" and isinstance(t.args[0].value, ast.Name) and t.args[0].value.id == sec:
+                classes = isinstance_classes(t.args[1], f) or []
+                if (not pol and SECTION in classes) or (pol and classes and set(classes) <= {DOCUMENT}):
+                    pos_test = t
+            if isinstance(t, ast.Compare) and len(t.ops) == 1 and isinstance(t.ops[0], (ast.Is, ast.Eq)) and pol:
+                sides = (t.left, t.comparators[0])
+                if any(isinstance(x, ast.Attribute) and x.attr == "parent" and isinstance(x.value, ast.Name) and x.value.id == sec for x in sides) and any(is_self_attr(x, "document") for x in sides):
+                    pos_test = t
+        if literal is not None:
+            rep.violation(
+                "C05.R5",
+                k,
+                site,
+                f"the top-level section is recognised by a literal heading level (`{short(literal, 40)}`): a document whose first heading is '## A', or whose headings are shifted by an include's "
+                ":heading-offset:, has a top-level section of another level and loses the MathJax ignore classes (the level is the tag digit plus the offset, not a position in the tree)",
+            )
+            continue
+        if pos_test is None:
+            raise Unsupported(f"condition of `{short(call, 50)}` tests neither a heading level nor the parent of the section: recognition of the top-level section not understood")
+        # (c) the position is only known after the section was attached
+        holder = pos_test
+        while not isinstance(holder, ast.stmt):
+            holder = parent(holder)
+        if cfg.dominates(cfg.stmt_of(ucall), holder):
+            rep.ok("C05.R5", k, site, f"`{short(pos_test, 60)}` evaluated after {UPDATE} attached the section")
+        else:
+            rep.violation(
+                "C05.R5",
+                k,
+                site,
+                f"`{short(pos_test, 60)}` is evaluated before {UPDATE} has attached the section: its parent is still None, so every section - not only the one outside any section - is treated as top-level",
+            )
+
+
+RULES = [r1_context_guard, r2_rubric_path_purity, r3_ordering_roles, r4_save_restore, r5_top_level_section]
 
 
 # ---------------------------------------------------------------------------
@@ -2948,6 +3105,33 @@ def mutants(corpus: Corpus):
         for mid, cond in (("c05-parent-fallback-any-other-open-level", f"k != {lv_}"), ("c05-parent-fallback-includes-own-level", f"k <= {lv_}")):
             add(mid, "C05.R3", base, sel_stmt,
                 f"{pn} = {lv_} - 1\n{ind}if {pn} not in self.{LEVEL_MAP}:\n{ind}    {pn} = max(k for k in self.{LEVEL_MAP} if {cond})", expect="parent level selection")
+    # ---- R5: top-level section recognised by position (repair 2e8a339) -----------------------------------
+    mj_call = find_node(rh, lambda n: isinstance(n, ast.Call) and isinstance(n.func, ast.Attribute) and n.func.attr == "extend" and any(isinstance(c, ast.Constant) and c.value in TOP_LEVEL_CLASSES for c in ast.walk(n)))
+    mj_if = None
+    if mj_call is not None:
+        x = parent(mj_call)
+        while x is not None and not isinstance(x, ast.If):
+            x = parent(x)
+        mj_if = x
+    upd_stmt = find_node(rh, lambda n: isinstance(n, ast.Expr) and isinstance(n.value, ast.Call) and isinstance(n.value.func, ast.Attribute) and n.value.func.attr == UPDATE)
+    lvl_arg = _update_args(upd_stmt.value)[1] if upd_stmt is not None else None
+    if mj_if is not None and upd_stmt is not None and upd_stmt.lineno < mj_if.lineno and isinstance(lvl_arg, ast.Name):
+        ind = " " * mj_if.col_offset
+        body_txt = seg(base, mj_if.body[0])
+        test_txt = seg(base, mj_if.test)
+        moved_after = lambda test: splice(splice(base.src, mj_if, f"if {test}:\n{ind}    {body_txt}\n{ind}{seg(base, upd_stmt)}"), upd_stmt, "pass")  # noqa: E731
+        out.append(Mutant("c05-revert-2e8a339-top-level-by-literal-level", "C05.R5", base.rel, moved_after(f"{lvl_arg.id} == 1 and self.blocks_mathjax_processing"), expect="top-level section recognised"))
+        out.append(Mutant("c05-top-level-test-before-attach", "C05.R5", base.rel, moved_after(test_txt), expect="top-level section recognised"))
+        add("c05-top-level-also-needs-low-level", "C05.R5", base, mj_if.test, f"({test_txt}) and {lvl_arg.id} <= 2", expect="top-level section recognised")
+    else:
+        out.append(("c05-top-level-mutants", "MathJax class statement / level-state update not found in the expected order"))
+    # ---- R1: a second transfer of rST-parsed children into a container (class of the known finding) --------
+    cf = base.func(f"{RENDERER}.render_colon_fence")
+    ncall = find_node(cf, lambda n: isinstance(n, ast.Expr) and isinstance(n.value, ast.Call) and isinstance(n.value.func, ast.Attribute) and n.value.func.attr == "nested_render_text")
+    if ncall is not None:
+        ind = " " * ncall.col_offset
+        add("c05-div-body-parsed-as-rst-into-container", "C05.R1", base, ncall,
+            f"scratch = make_document()\n{ind}MockRSTParser().parse(token.content, scratch)\n{ind}self.current_node.extend(scratch.children)", expect="render_colon_fence")
     # ---- reverts of the repairs landed in /repo --------------------------------------------------------
     # fce582c (a): a nested render without an offset argument reset the offset to the default 0
     if cm is not None:
